@@ -113,6 +113,28 @@ Theorem C12_default_name_only_empty : forall r name,
 Proof. exact default_name_only_empty. Qed.
 Print Assumptions C12_default_name_only_empty.
 
+(* ... for every sequence of requests of arbitrary message types through one interceptor: each
+   request is treated on its own (nothing carried over from earlier requests of whatever type; a
+   failed RecvMsg leaves the message alone), field numbers and order are kept, and the only entry
+   that can change is the singular string field called "name" of THIS message's type, when empty *)
+Theorem C12_default_name_sequence : forall d steps i path t v,
+  nth_error steps i = Some (path, t, v) ->
+  nth_error (run_seq d steps) i = Some (if path =? 2 then v else replace_in t v d).
+Proof. exact default_name_sequence. Qed.
+Print Assumptions C12_default_name_sequence.
+
+Theorem C12_default_name_only_name_field : forall t v d i p,
+  nth_error v i = Some p ->
+  nth_error (replace_in t v d) i = Some (if is_empty_name t p then (fst p, d) else p) /\
+  map fst (replace_in t v d) = map fst v /\
+  (is_empty_name t p = true <->
+   exists f, name_field t = Some f /\ fk f = FString /\ fst p = fnum f /\ snd p = ""%string).
+Proof.
+  intros t v d i p H. split; [exact (replace_in_only_empty_name t v d i p H)|].
+  split; [apply replace_in_keeps_fields|apply is_empty_name_spec].
+Qed.
+Print Assumptions C12_default_name_only_name_field.
+
 (* every method of every trait service descriptor is forwarded by its checked-in router with the
    right shape (re-proved against the table regenerated from the working tree on every run) *)
 Theorem C12_all_routed : forallb entry_ok table = true /\ orphan_routers = [].
@@ -157,6 +179,12 @@ Example C12_nonvacuous_pump :
   pump c cooperative = mkTr (Some [("k"%string, ["v"%string])]) [1; 2; 1] (Some [("t"%string, ["1"%string])]) (Some (14, "gone"%string)) false 4
   /\ t_msgs (pump c (mkCaller None (Some (1, (13, "full"%string))))) = [1] /\ t_cancelled (pump c (mkCaller None (Some (1, (13, "full"%string))))) = true.
 Proof. vm_compute. repeat split. Qed.
+Example C12_nonvacuous_default_seq :
+  let a := mkT "vendor.a.ListThingsRequest" [mkF 1 "name" FString; mkF 2 "page_token" FString] in
+  let b := mkT "vendor.b.ListThingsRequest" [mkF 1 "page_token" FString; mkF 2 "name" FString] in
+  run_seq "dev" [(0, a, [(1, ""); (2, "")]); (1, b, [(1, ""); (2, "")]); (0, b, [(1, ""); (2, "x")]); (2, b, [(1, ""); (2, "")])]%string
+  = [[(1, "dev"); (2, "")]; [(1, ""); (2, "dev")]; [(1, ""); (2, "x")]; [(1, ""); (2, "")]]%string.
+Proof. vm_compute. reflexivity. Qed.
 Example C12_nonvacuous_table : (20 <? zlen table) = true /\
   existsb (fun e => existsb dm_sstream (e_methods e)) table = true /\
   existsb (fun e => existsb (fun d => negb (dm_sstream d)) (e_methods e)) table = true.
